@@ -213,8 +213,9 @@ def gen_script(rnd, k):
     ns = set()
     for f in forms:
         ns |= {n for (n, _) in all_symbols(f)}
+    FNS = {n for f in forms for (n, ty_) in all_symbols(f) if is_fun(ty_)}
     if g.pct(40):
-        m = names.hostile_mapping(rnd, ns, pct=40)
+        m = names.hostile_mapping(rnd, ns, pct=40, functions=FNS)
         forms = [names.rename(f, m) for f in forms]
         ns = {m.get(n, n) for n in ns}
     gv_terms = [g.term(g.ty(), 2) for _ in range(2)] if kind == "get-value" else []
